@@ -18,6 +18,7 @@ RULE = ("dry run of a deterministic problem records the evaluation sequence "
         "requests.  Non-trivial = a rerun in which a request was satisfied; "
         "distinct = (request kinds, step kind of k, simultaneous, constraint "
         "kind)")
+RULE += ("  Also: trigger kind 'trust-region point followed by a second-order correction'; requests of the form (target, feasibility_tol) = (f_k, v_k) so that infeasible points trigger; small filters; callbacks that return truthy values but never raise; targets at / beyond the extreme barrier with NaN / inf / huge objective values (-inf <= target satisfies, NaN does not).")
 ASSUMPTIONS = [
     "the solver is deterministic (C11), so the rerun reproduces evaluations "
     "1..k bitwise; this is itself verified (prefix comparison) and a mismatch "
